@@ -138,3 +138,25 @@ Definition check_ccase_gen (lx : bool) (cs : list cfield * list (list nat) * lis
 
 Definition check_ccase := check_ccase_gen true.
 Definition check_ccase_old := check_ccase_gen false.
+
+(* ---- gathered metadata constructs and the per-field mapping ----
+   A case: the fields in writing order; per field the observed dimensions of
+   the gathered axes of each of its gathered items (data first, then
+   constructs), as numbers; per field the observed list variables of those
+   items, as numbers. *)
+Definition check_gcase_gen (rs : bool) (cs : list cfield2 * list (list nat) * list (list nat)) : bool :=
+  let '(cfs, odims, ovars) := cs in
+  let '(st, _, xs) := write_cfields2 rs cfs st0 [] in
+  let md := map (fun q : cfield2 * (fout * option nat * list nat) =>
+                   let dims := o_dims (fst (fst (snd q))) in
+                   concat (match cf_c (c2_f (fst q)) with
+                           | Some (CGath _ p n) => [gdims p n dims]
+                           | _ => [] end ++
+                           map (fun it => gdims (gi_p it) (gi_n it) dims) (c2_g (fst q)))) (combine cfs xs) in
+  let mv := map (fun x : fout * option nat * list nat =>
+                   match snd (fst x) with Some v => [v] | None => [] end ++ snd x) xs in
+  nat_lists_eqb (regroup md (canon dimid_eqb (concat md))) (regroup odims (canon Nat.eqb (concat odims))) &&
+  nat_lists_eqb (regroup mv (canon Nat.eqb (concat mv))) (regroup ovars (canon Nat.eqb (concat ovars))).
+
+Definition check_gcase := check_gcase_gen true.
+Definition check_gcase_carried := check_gcase_gen false.
